@@ -1,0 +1,12 @@
+//go:build verif
+
+package asp
+
+import "github.com/thought-machine/please/src/core"
+
+// Verification hook for property C20 (label patterns). Add-only; compiled only with -tags verif.
+
+// VerifC20ValidateSandbox runs the unexported validateSandbox on the given state and target.
+func VerifC20ValidateSandbox(state *core.BuildState, target *core.BuildTarget) error {
+	return validateSandbox(state, target)
+}
